@@ -27,6 +27,7 @@ def _nontrivial(op, out):
 PROP = dict(
     lean_modules=["Octo.Props.C29"],
     required_theorems=[],
+    gen=["jsonpipe"],
     nontrivial=_nontrivial,
     corr_skip=_corr_skip,
     rule="TODO",
